@@ -28,6 +28,8 @@ CONSTANTS Callers,      \* run-now requests
           ClaimIgnoresCancel, \* FALSE = intended protocol (the timer branch claims under stateLock and honours a
                         \* cancellation that has already succeeded).  TRUE = named deviation of the pinned code:
                         \* `active := TRUE` without looking at `finalised`
+          PrefixCancellers, \* the cancellers that use CancelJobs(prefix): they first LIST the matching names under the
+                        \* table lock (KList) and cancel each name found afterwards (KLookup, KSignal)
           DropOnClaim   \* FALSE = intended protocol.  TRUE adds the named deviation GTDrop: the
                         \* pinned code's timer branch leaving when it sees the job claimed
 
@@ -103,8 +105,16 @@ RSend(c) ==
 
 -----------------------------------------------------------------------------
 (* cancellers *)
+\* CancelJobs(prefix): collect the names with the prefix under jobsMutex; a name that is not there is not cancelled
+KList(k) ==
+    /\ k \in PrefixCancellers /\ kpc[k] = "idle"
+    /\ IF inTable \/ bInTable
+       THEN kpc' = [kpc EXCEPT ![k] = "l"] /\ kres' = kres
+       ELSE kpc' = [kpc EXCEPT ![k] = "done"] /\ kres' = [kres EXCEPT ![k] = "nosuchjob"]
+    /\ UNCHANGED <<inTable, bInTable, bLive, active, finalised, closed, runCh, cancelCh, lock, gpc, runs, running, timerExpired, ctxDone, panicked, cpc, cres, took>>
+
 KLookup(k) ==
-    /\ kpc[k] = "idle"
+    /\ kpc[k] = (IF k \in PrefixCancellers THEN "l" ELSE "idle")
     /\ IF inTable
        THEN /\ inTable' = FALSE /\ kpc' = [kpc EXCEPT ![k] = "p"] /\ kres' = kres
             /\ UNCHANGED <<bInTable, bLive>>
@@ -213,7 +223,7 @@ GNext == \/ GSelCtx \/ GSelCancel \/ GSelRun \/ GSelTimer \/ GCtxDel
 
 Next == \/ TimerExpire \/ CtxCancel \/ Resched
         \/ \E c \in Callers : RLookup(c) \/ RCheck(c) \/ RSend(c)
-        \/ \E k \in Cancellers : KLookup(k) \/ KSignal(k)
+        \/ \E k \in Cancellers : KList(k) \/ KLookup(k) \/ KSignal(k)
         \/ GNext
 
 Spec == Init /\ [][Next]_vars
